@@ -22,7 +22,7 @@ Environment facts: interpreter /venv/bin/python (3.12, numpy 2.5, scipy 1.18). T
 
 Requirements for the change:
  * It must need something SPECIFIC to manifest — a particular multi-step sequence of operations, an unusual-but-legal input or configuration (edge of a parameter range, unequal sizes, second call on the same object, a specific level/refinement depth, a specific sampler or grid constructor, several product dates, a vector payoff, ...), or two cooperating edits — NOT something any ordinary use would expose at once. Prefer subtle semantic changes (few lines) over crashes. It must be a real violation of the property statement as written, not merely a different-but-still-correct behaviour.
- * Do not modify or add tests in the checkout; do not change anything unrelated.
+ * Do not modify or add tests in the checkout; do not change anything unrelated. Never use `git stash` (the stash is shared by all worktrees of the repository and other people work in sibling worktrees); to compare with the baseline run things against /repo instead.
  * Keep the diff small (typically 1-15 lines).
 
 Deliverables:
